@@ -197,6 +197,13 @@ class FunctionTransformer(ast.NodeTransformer):
     def visit_Lambda(self, n):
         return n
 
+    def visit_Call(self, n):
+        self.generic_visit(n)
+        if isinstance(n.func, ast.Name) and n.func.id == "zip" and len(n.args) == 1 and isinstance(n.args[0], ast.Starred) \
+                and not n.keywords:
+            return _call("zip_star", n.args[0].value)
+        return n
+
     # ---------------------------------------------------------------- comprehensions
     def _comp(self, node, kind, elt):
         key = f"comp#{self.n_comp}"
@@ -408,6 +415,12 @@ class _ContractExpr(ast.NodeTransformer):
         self.generic_visit(n)
         z = ast.arguments(posonlyargs=[], args=[], kwonlyargs=[], kw_defaults=[], defaults=[])
         return _call("Ite", n.test, ast.Lambda(args=z, body=n.body), ast.Lambda(args=copy.deepcopy(z), body=n.orelse))
+
+    def visit_Subscript(self, n):
+        self.generic_visit(n)
+        if isinstance(n.slice, ast.Slice) or not isinstance(n.ctx, ast.Load):
+            return n
+        return _call("Idx", n.value, n.slice)
 
     def visit_Compare(self, n):
         self.generic_visit(n)
